@@ -49,7 +49,7 @@ def run(tier, v):
     wd = vlib.workdir(PID)
     vlib.build_harness()
     K = set(vlib.known_devs(PID))
-    fams = [("freq", 1 if tier == "thorough" else 23), ("both", 1 if tier == "thorough" else 3), ("bad", 1), ("back", 1)]
+    fams = [("freq", 1 if tier == "thorough" else 23), ("both", 1 if tier == "thorough" else 3), ("bad", 1), ("back", 1), ("role", 1)]
     n_steps = n_reports = n_scen = 0
     states = trans = 0
     samples = []
@@ -95,7 +95,7 @@ def run(tier, v):
     return v.finish("model_checking", {
         "states": states, "transitions": trans, "traces_validated_against_impl": n_scen,
         "evaluations": n_steps, "distinct_nontrivial": n_reports,
-        "rule": "scenarios of MC_C19 (families freq/both/bad/back, strides %s): %d scenarios, %d segments; non-trivial = segments for which the analyzer reported an estimate" % (dict(fams), n_scen, n_steps),
+        "rule": "scenarios of MC_C19 (families freq/both/bad/back/role, strides %s): %d scenarios, %d segments; non-trivial = segments for which the analyzer reported an estimate" % (dict(fams), n_scen, n_steps),
         "samples": samples, "exhaustive": tier == "thorough",
     }, ["clock injected through hook H1 (verif_clock) and scripted per segment", "expected values use the observed pair (dms, dts), exact integer arithmetic; exact ties of a rounding/tolerance comparison are accepted either way",
         "nothing is demanded of the output for timestamps that move backwards", "traffic keeps a stable role per endpoint (client port > 1024, server port 80)"])
